@@ -19,14 +19,16 @@ import (
 )
 
 type opts struct {
-	proto  string
-	pool   int
-	ht     int
-	seed   int64
-	rounds int
-	per    int
-	conns  int
-	out    string
+	proto   string
+	pool    int
+	ht      int
+	seed    int64
+	rounds  int
+	per     int
+	conns   int
+	out     string
+	filters string
+	servant string
 }
 
 type request struct {
@@ -286,12 +288,15 @@ type sendRec struct {
 	Code []int  `json:"code"`
 	Msg  []int  `json:"msg"`
 	Impl int    `json:"impl"`
+	Filt int    `json:"filt"` // filter stages that saw this request (observation)
 }
 
 type cfgRec struct {
 	Proto string `json:"proto"`
 	Pool  int    `json:"pool"`
 	Ht    int    `json:"ht"`
+	Filt  string `json:"filt"`
+	Wctx  bool   `json:"wctx"`
 }
 
 type connRec struct {
@@ -306,7 +311,7 @@ type connRec struct {
 func run(o *opts) error {
 	dir := filepath.Dir(o.out)
 	installHooks()
-	info, err := startServer(o.proto, o.pool, o.ht, dir)
+	info, err := startServer(o.proto, o.pool, o.ht, dir, o.filters, o.servant)
 	if err != nil {
 		return err
 	}
@@ -351,7 +356,7 @@ func run(o *opts) error {
 	}
 	g := &gen{rng: rand.New(rand.NewSource(o.seed)), o: o, ids: map[int32]bool{424242: true}}
 	rng := g.rng
-	cfg := cfgRec{o.proto, o.pool, o.ht}
+	cfg := cfgRec{o.proto, o.pool, o.ht, o.filters, o.servant == "ctx"}
 	var sent int64 // cumulative number of requests sent (TCP: compared with the hook counters)
 	discarded, notQuiet, blockFailed := 0, 0, 0
 	tcp := o.proto == "tcp"
@@ -395,7 +400,8 @@ func run(o *opts) error {
 	}
 
 	for round := 1; round <= o.rounds; round++ {
-		blocked := o.pool > 0 && rng.Intn(2) == 0
+		// rounds 2 and 4 of a pooled server are always blocked, so that every configuration with a pool has queue timeouts
+		blocked := o.pool > 0 && (rng.Intn(2) == 0 || round == 2 || round == 4)
 		slowLeft := 4
 		if o.pool > 0 {
 			slowLeft = 2
@@ -564,7 +570,7 @@ func run(o *opts) error {
 					continue
 				}
 				cr.Sends = append(cr.Sends, sendRec{K: q.K, Ver: int(q.Ver), Pt: int(q.Pt), ID: be32(q.ID), Fn: q.Fn, Tmo: q.Tmo, Cls: q.Cls,
-					Code: be32(q.Code), Msg: ints(q.Msg), Impl: rec.startedN(q.K)})
+					Code: be32(q.Code), Msg: ints(q.Msg), Impl: rec.startedN(q.K), Filt: flog.seen(q.ID)})
 			}
 			for _, f := range frames[i] {
 				cr.Recvs = append(cr.Recvs, ints(f))
@@ -599,6 +605,7 @@ func run(o *opts) error {
 		"records": w.N, "sent": atomic.LoadInt64(&sent), "discarded_rounds": discarded, "rounds_not_quiet": notQuiet, "rounds_blockers_lost": blockFailed,
 		"hook_handleConn": atomic.LoadInt64(&hookHandleConn) - baseRecv, "hook_invoked": atomic.LoadInt64(&hookInvoked) - base,
 		"hook_written": atomic.LoadInt64(&hookWritten), "maxroutine": info.maxInvoke, "handletimeout_ms": info.htMs,
+		"filters": o.filters, "servant": o.servant, "filter_stage_entries": flog.kinds(), "filter_stages_per_call": stagesPerCall[o.filters],
 	}
 	b, _ := json.Marshal(sum)
 	fmt.Println(string(b))
@@ -621,7 +628,7 @@ func udpShort(n int) error {
 		return err
 	}
 	defer os.RemoveAll(dir)
-	info, err := startServer("udp", 0, 0, dir)
+	info, err := startServer("udp", 0, 0, dir, "none", "ctx")
 	if err != nil {
 		return err
 	}
